@@ -60,6 +60,12 @@ CHECKS = {
             'expression) x threaded x tracer style on the real Sandbox; oracle: plain CPython execution of the same source',
             'Every combination in the finite alphabet is executed; containment, get_exception(), exactly one runtime feedback '
             'naming the class, and the student line are compared with a plain-CPython reference run.', '2/C04'),
+    'C08': ('bounded-exhaustive enumeration of programs (all sequences of <=2/3 statements over 45 statements covering every '
+            'operator, call form, literal type, node kind and import form) x the full battery of queries (27 operators, call '
+            'names, literals, literal types, node kinds, modules) x thresholds around the true count, on the real '
+            'ensure_*/prevent_*/find_* functions; oracle: ast.walk over CPython\'s tree with a table from the language reference',
+            'Every program x query x threshold in the bounded space is evaluated; firing, counts, returned nodes and reported '
+            'line are compared with a plain walk of CPython\'s syntax tree.', '2/C08'),
 }
 
 PENDING = ['C02', 'C03', 'C04', 'C05', 'C06', 'C07', 'C08', 'C09', 'C10', 'C11', 'C12', 'C13', 'C14', 'C15',
